@@ -279,16 +279,18 @@ class Run:
         self.wall = 0.0
 
 
-def run_workload(check, name, cfg, driver, mode, count, nshards=NCPU, shards=None, params=None, sparam=None,
-                 timeout=900, env=None, build_kw=None, wrapper=None):
-    """Build + run `driver --mode mode` over the given shards of an nshards split."""
+_PROC_SEM = __import__("threading").BoundedSemaphore(NCPU)
+
+
+def _exec_workload(seed, name, cfg, driver, mode, count, nshards=NCPU, shards=None, params=None, sparam=None,
+                   timeout=900, env=None, build_kw=None, wrapper=None):
     exe = build(cfg, driver, **(build_kw or {}))
-    base = ["--mode", mode, "--seed", str(check.seed), "--nshards", str(nshards), "--count", str(count)]
+    base = ["--mode", mode, "--seed", str(seed), "--nshards", str(nshards), "--count", str(count)]
     for i, v in enumerate(params or []):
         base += ["--p%d" % i, str(v)]
     if sparam:
         base += ["--sparam", sparam]
-    run = Run(name, cfg, driver, mode, exe, base, check.seed)
+    run = Run(name, cfg, driver, mode, exe, base, seed)
     run.build_kw = build_kw or {}
     run.wrapper = wrapper
     run.env = env
@@ -296,21 +298,38 @@ def run_workload(check, name, cfg, driver, mode, count, nshards=NCPU, shards=Non
     t0 = time.time()
 
     def one(s):
-        r = run_one(exe, base + ["--shard", str(s)], timeout, env, wrapper)
-        if r.timeout:
-            log("timeout %s shard %d; retrying once" % (name, s))
-            r2 = run_one(exe, base + ["--shard", str(s)], timeout, env, wrapper)
-            if r2.timeout:
-                return r2
-            return r2
-        return r
+        with _PROC_SEM:
+            r = run_one(exe, base + ["--shard", str(s)], timeout, env, wrapper)
+            if r.timeout:
+                log("timeout %s shard %d; retrying once" % (name, s))
+                r = run_one(exe, base + ["--shard", str(s)], timeout, env, wrapper)
+            return r
 
     with cf.ThreadPoolExecutor(min(NCPU, max(1, len(shard_ids)))) as ex:
         for s, r in zip(shard_ids, ex.map(one, shard_ids)):
             run.shards[s] = r
     run.wall = time.time() - t0
+    return run
+
+
+def run_workload(check, name, cfg, driver, mode, count, **kw):
+    """Build + run `driver --mode mode` over the given shards of an nshards split."""
+    run = _exec_workload(check.seed, name, cfg, driver, mode, count, **kw)
     check.add_run(run)
     return run
+
+
+def run_parallel(check, specs):
+    """specs: list of (name, cfg, driver, mode, count, kwargs). Builds sequentially, runs concurrently
+    (total concurrent driver processes capped at NCPU), results added in the given order."""
+    for sp in specs:
+        build(sp[1], sp[2], **(sp[5].get("build_kw") or {}))
+    with cf.ThreadPoolExecutor(max(1, len(specs))) as ex:
+        futs = [ex.submit(_exec_workload, check.seed, sp[0], sp[1], sp[2], sp[3], sp[4], **sp[5]) for sp in specs]
+        runs = [f.result() for f in futs]
+    for r in runs:
+        check.add_run(r)
+    return runs
 
 
 # --------------------------------------------------------------------------
@@ -333,15 +352,44 @@ class Check:
         self.viol = {}          # key -> dict(count, first replay info)
         self.inconclusive = []
         self.stats = {}
-        self.maxes = {}
+        self._maxes = {}
+        self.pending = []
         self.samples = []
         self.ubsan = set()
         self.notes = []
         self.must = {}
-        self.extra = {}
+        self._extra = {}
         self.assumptions = []
         self.rule = ""
         self.known = [f for f in load_known() if f.get("property") == prop]
+
+    # -- deferred, concurrent execution of workloads ------------------------
+    class _Lazy:
+        def __init__(self):
+            self.run = None
+
+    def spec(self, name, cfg, driver, mode, count, **kw):
+        h = Check._Lazy()
+        self.pending.append(((name, cfg, driver, mode, count, kw), h))
+        return h
+
+    def go(self):
+        if not self.pending:
+            return
+        pend, self.pending = self.pending, []
+        runs = run_parallel(self, [p[0] for p in pend])
+        for (sp, h), r in zip(pend, runs):
+            h.run = r
+
+    @property
+    def maxes(self):
+        self.go()
+        return self._maxes
+
+    @property
+    def extra(self):
+        self.go()
+        return self._extra
 
     # -- collecting ---------------------------------------------------------
     def violation(self, key, info):
@@ -365,21 +413,23 @@ class Check:
                 self.inconclusive.append("%s shard %d ended without DONE (rc=%s) %s" % (run.name, s, r.rc, r.stderr[-300:]))
             if r.done:
                 self.stats["cases"] = self.stats.get("cases", 0) + r.done
-                self.extra.setdefault("cases_per_cfg", {})
-                self.extra["cases_per_cfg"][run.cfg] = self.extra["cases_per_cfg"].get(run.cfg, 0) + r.done
+                self._extra.setdefault("cases_per_cfg", {})
+                self._extra["cases_per_cfg"][run.cfg] = self._extra["cases_per_cfg"].get(run.cfg, 0) + r.done
             for k, v in r.stats.items():
                 self.stats[k] = self.stats.get(k, 0) + v
                 ck = "%s@%s" % (k, run.cfg)
-                self.extra.setdefault("per_cfg", {})
-                self.extra["per_cfg"][ck] = self.extra["per_cfg"].get(ck, 0) + v
+                self._extra.setdefault("per_cfg", {})
+                self._extra["per_cfg"][ck] = self._extra["per_cfg"].get(ck, 0) + v
             for k, v in r.maxes.items():
-                self.maxes[k] = max(self.maxes.get(k, 0), v)
+                self._maxes[k] = max(self._maxes.get(k, 0), v)
             if len(self.samples) < 12:
                 self.samples += r.samples[: max(1, 12 - len(self.samples))][:3]
             self.ubsan |= r.ubsan
 
     def compare_digests(self, runs, what="results"):
         """Same seed, same shard, same count: digests must agree across configurations."""
+        self.go()
+        runs = [r.run if isinstance(r, Check._Lazy) else r for r in runs]
         ref = runs[0]
         n = 0
         for other in runs[1:]:
@@ -404,15 +454,18 @@ class Check:
 
     def require(self, name, seen, need, why=""):
         """must-observe: a run that did not observe this is inconclusive."""
+        self.go()
         self.must[name] = dict(seen=int(seen), required=int(need))
         if seen < need:
             self.inconclusive.append("must-observe %s: saw %d, need %d %s" % (name, seen, need, why))
 
     def stat(self, k):
+        self.go()
         return self.stats.get(k, 0)
 
     # -- finishing ----------------------------------------------------------
     def finish(self, evaluations, distinct_nontrivial, rule, extra_cov=None):
+        self.go()
         wall = time.time() - self.t0
         os.makedirs(os.path.join(VERIF, "replays"), exist_ok=True)
         known_keys = {f["key"]: f for f in self.known if f.get("status") == "known"}
@@ -442,7 +495,7 @@ class Check:
                                    wall_s=round(r.wall, 1)) for r in self.runs],
                    ubsan_logged_not_verdict=sorted(self.ubsan)[:60],
                    exhaustive=False)
-        cov.update(self.extra)
+        cov.update(self._extra)
         if extra_cov:
             cov.update(extra_cov)
         ev = dict(property_id=self.prop, tier=self.tier, seed=self.seed, level=self.level, coverage=cov,
